@@ -328,6 +328,12 @@ func inUse(enc [][]string, ch string) bool {
 	return false
 }
 
+// c18FoldBit: the raw option bit driven by SetFold, found by trying it (no internal constant is assumed)
+var c18FoldBit = func() uint16 {
+	a, b := stackage.And(), stackage.And().SetFold(true)
+	return stackage.VerifDump(b).Opt &^ stackage.VerifDump(a).Opt
+}()
+
 var c18AuxMap = stackage.Auxiliary{"k": 1}
 
 // an allocated map without entries: it is the caller's map all the same (never written to by the harness)
@@ -373,7 +379,9 @@ func c18SetOps() []setOp {
 	for _, e := range []struct {
 		n string
 		v []any
-	}{{`"\""`, []any{`"`}}, {`["(",")"]`, []any{[]string{"(", ")"}}}, {`["<",">"],"'"`, []any{[]string{"<", ">"}, "'"}}, {`[")","]"]`, []any{[]string{")", "]"}}}, {`["\""]`, []any{[]string{`"`}}}, {"", nil}, {`"x"`, []any{"x"}}, {`"X"`, []any{"X"}}} {
+	}{{`"\""`, []any{`"`}}, {`["(",")"]`, []any{[]string{"(", ")"}}}, {`["<",">"],"'"`, []any{[]string{"<", ">"}, "'"}}, {`[")","]"]`, []any{[]string{")", "]"}}}, {`["\""]`, []any{[]string{`"`}}}, {"", nil}, {`"x"`, []any{"x"}}, {`"X"`, []any{"X"}},
+		// a pair whose right half may be taken while its left half is free, and that left half on its own
+		{`["<",")"]`, []any{[]string{"<", ")"}}}, {`"<"`, []any{"<"}}} {
 		e := e
 		add("SetEncap("+e.n+")", func(in *setInst) {
 			in.s.SetEncap(e.v...)
@@ -502,6 +510,9 @@ func c18SetMachine(c *Ctx, kind string, maxDepth int) *Machine[*setInst] {
 				bad("IsFIFO:"+cls, "IsFIFO()=%v want %v", got, in.fifo)
 			}
 			d := stackage.VerifDump(s)
+			if got := d.Opt&c18FoldBit != 0; got != in.fold {
+				bad("fold-bit:"+cls, "the case-fold option is %v, want %v (symbol %q)", got, in.fold, in.sym)
+			}
 			if d.Sym != in.sym {
 				bad("symbol:"+cls, "stored symbol %q want %q (kind %s)", d.Sym, in.sym, kind)
 			}
@@ -546,7 +557,8 @@ func c18SetMachine(c *Ctx, kind string, maxDepth int) *Machine[*setInst] {
 			c.Outcome(s.String() + s.ID() + s.Category())
 			return out
 		},
-		Observe: func(in *setInst) { observeAll(in.s) },
+		NoopProbeDepth: 2,
+		Observe:        func(in *setInst) { observeAll(in.s) },
 		Key: func(in *setInst) string {
 			// an ID assigned through "_addr" differs between instances; fold it into one state
 			return strings.ReplaceAll(stackage.VerifDump(in.s).Key(false), in.s.Addr(), "<addr>") + fmt.Sprint(in.auxOK)
@@ -657,7 +669,8 @@ func c18CondSetMachine(c *Ctx) *Machine[*csetInst] {
 			c.Outcome(cd.String() + cd.ID())
 			return out
 		},
-		Observe: func(in *csetInst) { observeAll(in.c) },
+		NoopProbeDepth: 2,
+		Observe:        func(in *csetInst) { observeAll(in.c) },
 		Key: func(in *csetInst) string {
 			return strings.ReplaceAll(stackage.VerifDump(in.c).Key(false), in.c.Addr(), "<addr>") + fmt.Sprint(in.auxOK)
 		},
